@@ -79,6 +79,25 @@ def text_ops(strs, chrs):
         add('CoseKey', 'a4010220012158' + '%02x' % len(b) + b.hex() if len(b) < 256 and len(b) > 23 else 'a10101', 'bytes')
     return ops
 
+def big_dup_ops(nums, cap=1 << 21):
+    """a repeated label placed after n distinct ones, for n a new literal or the product of two of them (a cap written `1024 * 1024`):
+    run on the implementation only — the rule (a repeated label is refused) is the oracle"""
+    ops = []; ns = set()
+    for a in nums:
+        for b in [1] + list(nums):
+            if 64 < a * b <= cap: ns.add(a * b)
+    for n in sorted(ns)[:4]:
+        fill = b''.join(b'\x1a' + (100000 + i).to_bytes(4, 'big') + b'\x00' for i in range(n))
+        for extra in (0, 2):
+            body = refcbor.head(5, n + extra + 2) + fill + b''.join(b'\x1a' + (90000 + i).to_bytes(4, 'big') + b'\x00' for i in range(extra)) + b'\x18\x63\x00\x18\x63\x00'
+            ops.append(mk('dec Header b' + body.hex(), k='magic:dup-after-n', n=n, impl_only=True))
+            ops.append(mk('dec CoseSign1 b' + (b'\x84' + refcbor.head(2, len(body)) + body + b'\xa0\xf6\x40').hex(), k='magic:dup-after-n', n=n, impl_only=True))
+            kb = refcbor.head(5, n + extra + 3) + b'\x01\x04' + body[len(refcbor.head(5, n + extra + 2)):]
+            ops.append(mk('dec CoseKey b' + kb.hex(), k='magic:dup-after-n', n=n, impl_only=True))
+            cb = refcbor.head(5, n + extra + 2) + b''.join(b'\x3a' + (100000 + i).to_bytes(4, 'big') + b'\x00' for i in range(n + extra)) + b'\x3a\x00\x01\x11\x6f\x00' * 2
+            ops.append(mk('dec ClaimsSet b' + cb.hex(), k='magic:dup-after-n', n=n, impl_only=True))
+    return ops
+
 I = lambda x: ('int', x); B = lambda b: ('bytes', b); Tx = lambda b: ('text', b)
 def enc(v): return refcbor.encode(v).hex()
 
